@@ -24,6 +24,38 @@ from ..auth import get_authenticator, Action
 from ..validators import get_validator
 
 
+HEX_DIGITS = frozenset("0123456789abcdef")
+
+
+def is_hex(value, length) -> bool:
+    return (
+        isinstance(value, str) and len(value) == length and HEX_DIGITS.issuperset(value)
+    )
+
+
+def event_from_json(event_json) -> Event:
+    """
+    Build an Event from the JSON object a client sent,
+    insisting on the field types and encodings NIP-01 prescribes
+    """
+    try:
+        event = Event(**event_json)
+        well_formed = (
+            is_hex(event_json["id"], 64)
+            and is_hex(event_json["pubkey"], 64)
+            and is_hex(event_json["sig"], 128)
+            and type(event_json["created_at"]) is int
+            and type(event_json["kind"]) is int
+            and isinstance(event_json["tags"], list)
+            and all(isinstance(tag, (list, tuple)) for tag in event_json["tags"])
+        )
+    except Exception:
+        well_formed = False
+    if not well_formed:
+        raise StorageError("invalid: Bad JSON")
+    return event
+
+
 class BaseStorage:
     def __init__(self, options):
         self.options = options
